@@ -214,7 +214,8 @@ template <class T> static bool exec_buf_t(Ctx &c, const Op &op) {
             set_viol(c, !size_ok ? "value_mismatch" : !block_ok ? "storage_class" : !term_ok ? "terminator_missing" : "value_mismatch",
                      std::string(ET<T>::name()) + ": allocate(" + std::to_string(n) + "): " + (!size_ok ? "size() differs" : !block_ok ? "data() is not the base of a live heap block of n+1 elements" : !term_ok ? "no NUL after the last element" : "the value did not survive a move"));
         if (beyond && ex == EX_BAD_ALLOC) c.fired = true;      // refused by the language or by the allocator, not by an injected fault: the same contract applies (target old or empty, everything valid)
-        if (settle(c, op, ex, 0)) { crossing<T>(c, dst->model.size(), 0); dst->model.clear(); dst->moved_from = true; }
+        // (a count that cannot be represented may as well be refused with a std::length_error-like exception before anything is touched: then the value stays)
+        if (settle(c, op, ex, beyond ? bit(EX_OTHER) : 0)) { crossing<T>(c, dst->model.size(), 0); dst->model.clear(); dst->moved_from = true; }
         return true;
     }
     case B_STRAIGHT: {
